@@ -26,17 +26,22 @@ from fractions import Fraction
 import numpy as np
 
 from harness import core, gen, impl
-from harness.core import g_bool, g_list, g_nat, g_vec, g_xq
+from harness.core import g_bool, g_list, g_mat, g_nat, g_vec, g_xq, g_Z
 
 PID = "C14"
 IMPORTS = """From Coq Require Import QArith ZArith List Bool.
-From CC Require Import Base.XQ Base.Render Base.ListX Spec.Stats Model.Scale.
+From CC Require Import Base.XQ Base.Render Base.ListX Spec.Stats Model.Scale Model.ScaleDisplay.
 Import ListNotations."""
 
 SLICE_VECS = ("scale_mean", "scale_mean_stddev", "scale_mean_stderr", "scale_median")
 MARGINS = ("rows_scale_mean_margin", "columns_scale_mean_margin",
            "rows_scale_median_margin", "columns_scale_median_margin")
 STRAND = ("scale_mean", "scale_median", "scale_std_dev", "scale_std_err")
+# the display-order helpers of cubepart.py the legacy pairwise scale-means test reads (private: there is no
+# public way to them; a missing attribute is counted, not a crash) - model: Model/ScaleDisplay.v
+DISPLAY = ("_rows_dimension_numeric_values", "_columns_dimension_numeric_values", "_rows_have_numeric_value",
+           "_columns_have_numeric_value", "_columns_scale_mean_variance", "_row_order_signed_indexes",
+           "_column_order_signed_indexes", "has_scale_means")
 
 
 # ------------------------------------------------------------------------------------
@@ -98,6 +103,8 @@ def _display_transforms(rng, variables):
 def gen_case(rng, k):
     if rng.random() < 0.12:
         return gen_large_case(rng, k)
+    if rng.random() < 0.07:
+        return gen_dominant_case(rng, k)
     r = rng.random()
     strand = r < 0.25
     if strand:
@@ -263,6 +270,107 @@ def gen_large_case(rng, k):
             "integer_weights": True, "large": True, "patterns": patterns}
 
 
+# ---- dominant-vector stream (round 3): a vector whose respondents nearly all sit in ONE valued category,
+# ---- and a vector whose respondents ALL sit in categories WITHOUT a numeric value while its base is not 0
+
+DOMINANT_PATTERNS = ("dominant_valued", "all_unvalued", "dominant_unvalued", "random")
+
+
+def dominant_vector(rng, vals, pattern):
+    """Integer counts (payload order) of N = 2^20 .. 2^24 respondents:
+      dominant_valued    N - r respondents (r <= N * 1e-6, r >= 1) in one numeric-valued category, the r others
+                         spread over the rest: mean within 1e-6 * range of that value, variance O(1e-6)
+      all_unvalued       everybody in categories without a numeric value (needs one): the weighted base is
+                         N > 0, the valued total 0 -> scale mean / stddev / stderr NaN, median NaN (never 0)
+      dominant_unvalued  N - r in an unvalued category, r >= 1 in valued ones: statistics of the r only"""
+    n = len(vals)
+    valued = [i for i, v in enumerate(vals) if v is not None]
+    unvalued = [i for i, v in enumerate(vals) if v is None]
+    N = 2 ** rng.randint(20, 24)
+    r = rng.randint(1, max(1, N // 10 ** 6))
+    counts = [0] * n
+    if pattern == "dominant_valued" and valued:
+        big = rng.choice(valued)
+        counts[big] = N - r
+        others = [i for i in range(n) if i != big] or [big]
+        for _ in range(r):
+            counts[rng.choice(others)] += 1
+    elif pattern == "all_unvalued" and unvalued:
+        for i, c in zip(unvalued, _composition(rng, N, len(unvalued))):
+            counts[i] = c
+    elif pattern == "dominant_unvalued" and unvalued and valued:
+        counts[rng.choice(unvalued)] = N - r
+        for _ in range(r):
+            counts[rng.choice(valued)] += 1
+    else:
+        counts = [rng.randint(0, 50) for _ in range(n)]
+    return counts
+
+
+def gen_dominant_case(rng, k):
+    strand = rng.random() < 0.25
+    patterns = []
+
+    def partial(alias):
+        # at least one valued and one unvalued category
+        for _ in range(30):
+            v = _numeric_var(rng, alias, date=rng.random() < 0.1)
+            vs = _vals_of(v)
+            if any(x is not None for x in vs) and any(x is None for x in vs):
+                return v
+        v = gen.make_cat(rng, alias, n_valid=4, numeric="all")
+        [c for c in v.cats if not c["missing"]][0]["numeric_value"] = None
+        return v
+
+    if strand:
+        rowv = partial("rowv")
+        variables, aliases = [rowv], ["rowv"]
+        pat = rng.choice(DOMINANT_PATTERNS[:3])
+        patterns.append(pat)
+        vec = dominant_vector(rng, _vals_of(rowv), pat)
+        sv = gen.Survey(variables, 0, rng, weighted=True)
+        valid = [i for i, c in enumerate(rowv.cats) if not c["missing"]]
+        for i, n in zip(valid, vec):
+            if n:
+                sv.resp.append({"ans": {"rowv": i}, "w": Fraction(n), "num": {}})
+        shape = "dominant_" + rowv.kind
+    else:
+        rowv, colv = partial("rowv"), partial("colv")
+        variables, aliases = [rowv, colv], ["rowv", "colv"]
+        rvals, cvals = _vals_of(rowv), _vals_of(colv)
+        if rng.random() < 0.5:          # design every column (values of the rows)
+            vecs = []
+            for _ in cvals:
+                pat = rng.choice(DOMINANT_PATTERNS)
+                patterns.append(pat)
+                vecs.append(dominant_vector(rng, rvals, pat))
+            table = [[vecs[j][i] for j in range(len(cvals))] for i in range(len(rvals))]
+        else:
+            table = []
+            for _ in rvals:
+                pat = rng.choice(DOMINANT_PATTERNS)
+                patterns.append(pat)
+                table.append(dominant_vector(rng, cvals, pat))
+        for v in variables:
+            if rng.random() < 0.4:
+                v.view_insertions = gen.random_insertions(rng, v)
+        sv = gen.Survey(variables, 0, rng, weighted=True)
+        ridx = [i for i, c in enumerate(rowv.cats) if not c["missing"]]
+        cidx = [i for i, c in enumerate(colv.cats) if not c["missing"]]
+        for i, row in enumerate(table):
+            for j, n in enumerate(row):
+                if n:
+                    sv.resp.append({"ans": {"rowv": ridx[i], "colv": cidx[j]}, "w": Fraction(n), "num": {}})
+        shape = "dominant_%s_x_%s" % (rowv.kind, colv.kind)
+    resp = gen.cube_response(sv, aliases)
+    dv = [_vals_of(v) for v in variables]
+    # "large": the model's medians use the cumulative rule (no expansion of 1e6 .. 1e7 respondents)
+    return {"k": k, "strand": strand, "shape": shape, "response": resp,
+            "transforms": {}, "hidden": {},
+            "dimvals": [[None if x is None else str(x) for x in d] for d in dv],
+            "integer_weights": True, "large": True, "dominant": True, "patterns": patterns}
+
+
 def exhaustive_cases(tier):
     """All count vectors with entries <= 3 over 4 categories (256 vectors), as the columns of
     CAT x CAT cubes (32 columns each), for several value assignments of the row categories."""
@@ -317,13 +425,15 @@ def impl_run(case):
     A = impl.partition(case["response"], None)
     out = {"dims": impl.dims_info(A)}
     if case["strand"]:
-        out["A"] = {n: impl.get(A, n) for n in ("counts", "row_order") + STRAND}
+        out["A"] = {n: impl.get(A, n) for n in ("counts", "row_order", "has_scale_means") + STRAND}
         return out
     names = ["counts", "row_weighted_bases", "column_weighted_bases", "rows_margin",
              "columns_margin", "row_order", "column_order", "diff_row_idxs", "diff_column_idxs"]
     names += ["rows_" + s for s in SLICE_VECS] + ["columns_" + s for s in SLICE_VECS]
     names += list(MARGINS)
     out["A"] = {n: impl.get(A, n) for n in names}
+    if isinstance(case.get("k"), int) and not case.get("large"):
+        out["D"] = {n: impl.get(A, n) for n in DISPLAY}
     if case["transforms"]:
         B = impl.partition(case["response"], case["transforms"])
         out["B"] = {n: impl.get(B, n) for n in MARGINS + ("row_order", "column_order")}
@@ -416,6 +526,34 @@ def _cum_median(order, g_counts, g_values):
             % (g_list([g_nat(i) for i in order]), g_counts, g_values))
 
 
+def display_term(case, io):
+    """Gallina term of the display-order leg (Model/ScaleDisplay.v) + what the comparison needs; (None, None)
+    when the leg does not apply (strand, large case, a private attribute that is missing / raises)."""
+    D = io.get("D")
+    A = io["A"]
+    if D is None:
+        return None, None
+    if any(not _ok(D[n]) for n in DISPLAY) or not _ok(A["columns_scale_mean"]) or not _ok(A["counts"]):
+        return None, {"skipped": {n: D[n] for n in DISPLAY if not _ok(D[n])}}
+    try:
+        ro = [int(x) for x in D["_row_order_signed_indexes"][1]]
+        co = [int(x) for x in D["_column_order_signed_indexes"][1]]
+        counts = np.asarray(A["counts"][1], dtype=float)
+        if counts.ndim != 2 or counts.shape != (len(ro), len(co)):
+            return None, {"skipped": {"counts.shape": list(counts.shape)}}
+        csm = A["columns_scale_mean"][1]
+        means = [] if csm is None else [float(x) for x in np.asarray(csm, dtype=float)]
+    except (TypeError, ValueError) as ex:
+        return None, {"skipped": {"exception": repr(ex)}}
+    vals = dimvals(case)
+    rv, cv = g_vals(vals[0]), g_vals(vals[1])
+    g_ro, g_co = g_list([g_Z(i) for i in ro]), g_list([g_Z(i) for i in co])
+    t = ("(r_vec (display_values %s %s) ++ r_vec (display_values %s %s) ++ r_bool (display_have_value %s %s)"
+         " ++ r_bool (display_have_value %s %s) ++ r_opt r_vec (display_scale_variance %d%%nat %s (display_values %s %s) %s))"
+         % (rv, g_ro, cv, g_co, rv, g_ro, cv, g_co, len(co), g_mat(counts.tolist()), rv, g_ro, g_vec(means)))
+    return t, {"ro": ro, "co": co}
+
+
 def build_term(case, io):
     """One Gallina term per case.  None when the implementation raised on an input read."""
     A = io["A"]
@@ -457,6 +595,11 @@ def build_term(case, io):
         else:
             parts.append("(r_xq (scale_mean_margin %s %s) ++ r_opt r_xq (scale_median_margin %s %s))"
                          % (g_vec(mv), g_vals(vv), g_vec(mv), g_vals(vv)))
+    dt, dinfo = display_term(case, io)
+    vs["display"] = dinfo if dt is not None else None
+    vs["display_skipped"] = dinfo.get("skipped") if (dt is None and dinfo) else None
+    if dt is not None:
+        parts.append(dt)
     return "(" + " ++ ".join(parts) + ")", vs
 
 
@@ -565,6 +708,9 @@ def compare(case, io, toks, aux, rep=None):
         if fails:
             return fails
         i_mean, i_med, i_sd, i_se = (got[n][1] for n in STRAND)
+        hs = A.get("has_scale_means")
+        if hs is not None and _ok(hs) and bool(hs[1]) != (i_mean is not None):
+            fail("strand.has_scale_means.none", {"impl": hs[1], "scale_mean": i_mean})
         so = oracle_vector(aux["base"], aux["vals"], False)
         s_near = so is not None and so.get("near_half")
         if s_near:
@@ -709,6 +855,26 @@ def compare(case, io, toks, aux, rep=None):
                 exp = None if orc["median"] == "nan" else orc["median"]
                 if (imd is None) != (exp is None) or (imd is not None and not core.close(imd, exp)):
                     fail("%s_scale_median_margin.respondents" % o, {"impl": imd, "respondents": exp})
+    # display-order helpers of cubepart.py (Model/ScaleDisplay.v): values, have-value flags, scale-mean variance
+    if vs.get("display") is not None:
+        D = io["D"]
+        m_rv, m_cv = d.vec(), d.vec()
+        m_rh, m_ch = d.bool(), d.bool()
+        m_var = d.opt(d.vec)
+        for name, mv in (("_rows_dimension_numeric_values", m_rv), ("_columns_dimension_numeric_values", m_cv)):
+            iv = D[name][1]
+            if iv is None or not core.close_vec(np.asarray(iv, dtype=float).tolist(), mv):
+                fail(name, {"impl": iv, "model": mv})
+        for name, mb in (("_rows_have_numeric_value", m_rh), ("_columns_have_numeric_value", m_ch)):
+            if bool(D[name][1]) != mb:
+                fail(name, {"impl": D[name][1], "model": mb})
+        iv = D["_columns_scale_mean_variance"][1]
+        if (iv is None) != (m_var is None) or (
+                iv is not None and not core.close_vec(np.asarray(iv, dtype=float).tolist(), m_var)):
+            fail("_columns_scale_mean_variance", {"impl": iv, "model": m_var})
+        csm = A["columns_scale_mean"][1]
+        if bool(D["has_scale_means"][1]) != (csm is not None):
+            fail("has_scale_means.none", {"impl": D["has_scale_means"][1], "columns_scale_mean_is_none": csm is None})
     if "B" in io:
         B = io["B"]
         rem = {"rows": None, "columns": None}
@@ -749,6 +915,8 @@ def _replayable(case):
                               "integer_weights")}
     if case.get("large"):
         d["large"], d["patterns"] = True, case.get("patterns", [])
+    if case.get("dominant"):
+        d["dominant"] = True
     return d
 
 
@@ -765,6 +933,28 @@ def check_case(case, rep, toks=None, io=None, aux=None):
         if rep.violation(kind, _replayable(case), dict(detail, what=what), c) != "known":
             live.append((what, detail, ctx))
     return live
+
+
+def late_read_leg(case, io, rep, force=False):
+    """READ-ORDER LEG (common_cases.late_reads; every third generated case, not the large / exhaustive ones):
+    every scale output read AFTER all the other public reads of a second partition must be the one of the fresh
+    partition `io["A"]` compared with the model above."""
+    k = case.get("k")
+    if case.get("large") or not isinstance(k, int) or (k % 3 != 0 and not force):
+        return 0
+    from harness.props import common_cases as cc
+    if case["strand"]:
+        names = list(STRAND)
+    else:
+        names = ["rows_" + s for s in SLICE_VECS] + ["columns_" + s for s in SLICE_VECS] + list(MARGINS)
+    population, late = cc.late_reads(case, names, io["A"], transforms=None)
+    rep.dist("late-reads:" + ("strand" if case["strand"] else "slice"))
+    for n, a, b, culprits in late[:1]:
+        rep.violation("impl-vs-property", _replayable(case),
+                      {"what": "%s depends on what was read before" % n, "fresh": a, "after_other_reads": b,
+                       "population": population, "single_earlier_reads_that_change_it": culprits},
+                      {"what": n + ".order_independent", "oracle": "order_independent"})
+    return len(late)
 
 
 def run(tier, seed):
@@ -794,10 +984,18 @@ def run(tier, seed):
         rep.dist("shape=" + case["shape"])
         rep.dist("valued" if nt else "no-numeric-values")
         rep.dist("integer-counts" if case["integer_weights"] else "fractional-counts")
-        if case.get("large"):
+        if case.get("dominant"):
+            rep.dist("dominant-vector (2^20..2^24 respondents, all but <= 1e-6 in one category)")
+            for pat in case.get("patterns", []):
+                rep.dist("dominant vector pattern=" + pat)
+        elif case.get("large"):
             rep.dist("large-N (1e5..1e6 respondents per designed vector)")
             for pat in case.get("patterns", []):
                 rep.dist("large-N vector pattern=" + pat)
+        if not case["strand"] and aux.get("display") is not None:
+            rep.dist("display-order leg (cubepart numeric values / scale-mean variance)")
+        elif not case["strand"] and aux.get("display_skipped"):
+            rep.dist("display-order leg skipped (private attribute missing / raises)")
         if not case["strand"]:
             n_vec += len(aux["rows"]) + len(aux["columns"])
             if case["transforms"]:
@@ -809,6 +1007,7 @@ def run(tier, seed):
         if nt:
             rep.sample({"shape": case["shape"], "dimvals": case["dimvals"], "strand": case["strand"]})
         check_case(case, rep, toks, io, aux)
+        late_read_leg(case, io, rep)
     rep.cov["rule"] = (
         "cases from random.Random(seed): CAT|CAT_DATE|MR x CAT|CAT_DATE|MR slices, CA_SUBVAR x CA_CAT, and "
         "CAT|CAT_DATE|MR strands; numeric values all/partial/none, repeated, negative, zero, unsorted; "
@@ -816,7 +1015,14 @@ def run(tier, seed):
         "cases; view subtotals incl. differences; run B with hide/explicit order/prune for the margins; "
         "non-trivial = some category has a numeric value; distinct by content hash; plus the exhaustive "
         "small scope: every count vector with entries <= 3 over 4 categories (256 columns) for 3 (quick) / 7 "
-        "(thorough) value assignments")
+        "(thorough) value assignments; 12% large-N near-tie cases; ~6% DOMINANT-VECTOR cases (2^20..2^24 "
+        "respondents: all but <= 1e-6 of a vector in one valued category / everybody in categories WITHOUT a "
+        "value while the base is not 0 (scale mean, stddev, stderr NaN, never 0) / all but <= 1e-6 unvalued); "
+        "READ-ORDER leg on every third small case (common_cases.late_reads: all scale outputs of slices and "
+        "strands re-read after every other public read of a second partition); DISPLAY-ORDER leg on every small "
+        "slice (cubepart._rows_/_columns_dimension_numeric_values, _have_numeric_value, "
+        "_columns_scale_mean_variance against Model/ScaleDisplay.v on the implementation's own signed display "
+        "order, assembled counts and columns_scale_mean; has_scale_means)")
     rep.cov["coq_eval_seconds"] = round(coq_s, 2)
     rep.cov["vectors_compared"] = n_vec
     rep.assumptions = [
@@ -827,8 +1033,9 @@ def run(tier, seed):
         "by valid_order)",
     ]
     return rep.finish("proof", ob, trusted_base=core.TRUSTED_BASE_COMMON + [
-        "Model/Scale.v is hand-written; tied to matrix/measure.py, stripe/measure.py and cubepart.py by this "
-        "correspondence run only"])
+        "Model/Scale.v, ScaleOrient.v (margins) and ScaleDisplay.v are tied to matrix/measure.py, "
+        "stripe/measure.py and cubepart.py by the translator obligations C14_gen_* (harness/translate/x_scale.py, "
+        "Base/VecExp.v) and by this correspondence run; the display-order leg reads private attributes of _Slice"])
 
 
 def replay(path):
@@ -842,6 +1049,8 @@ def replay(path):
         return 1
     results, _ = core.run_coq_cases(PID, IMPORTS, [term], tag="replay")
     fails = check_case(case, rep, results[0], io, aux)
+    if late_read_leg(case, io, rep, force=True):
+        fails = list(fails) + [("read-order", {}, {})]
     for f in fails[:10]:
         print("REPLAY still fails:", json.dumps(core.jsonable(f))[:700])
     if rep.known:
